@@ -939,7 +939,21 @@ def shared_name_rule(r, lib, path_fns):
                 okv = isinstance(v[1], int) and v[1] >= 1
                 r.ob("H4.hint-at-least-one", bd.name, okv, "constant hint %r keeps at least the element's own name" % (v[1],) if okv else
                      "constant hint %r: expand_name would take no trace segment and render an empty struct name" % (v[1],), site=s_, key="H4|const|%s" % (v[1],))
-        bad = [(v, g, s_) for v, g, s_ in pairs if is_shortcut(v) and not at_most_one(g)]
+        def switch_at_most_one(site):
+            """`match bucket.len() { 1 => .., _ => .. }`: the block is reached only over an edge of a switch on the length
+            itself that is taken for the values 0 and/or 1 only"""
+            for (a, succ) in bd.transitive_control_deps(site.bb):
+                tt = bd.blocks[a]["term"]
+                if tt["k"] != "switch":
+                    continue
+                c = strip(term_of(bd, tt["op"]), mir.VALUE_PRESERVING)
+                if not ((c[0] == "call" and c[1].rsplit("::", 1)[-1] == "len") or (c[0] == "unop" and c[1] == "PtrMetadata")):
+                    continue
+                vals = [int(v) for v, t in tt["targets"] if t == succ]
+                if vals and tt.get("otherwise") != succ and all(v in (0, 1) for v in vals):
+                    return True
+            return False
+        bad = [(v, g, s_) for v, g, s_ in pairs if is_shortcut(v) and not at_most_one(g) and not switch_at_most_one(s_)]
         ok = bool(pairs) and not bad
         r.ob("H7.shared-name-gets-computed-length", bd.name, ok,
              "%d stored hint value(s): every constant is stored only for a bucket of at most one trace, names collected at several positions get the computed separating length" % len(pairs) if ok else
